@@ -6,6 +6,7 @@
 
 #include "checks/geom_spaces.h"
 #include "draco/compression/attributes/normal_compression_utils.h"
+#include "mc/alloc_env_decl.h"
 
 namespace rt {
 
@@ -119,7 +120,21 @@ inline Result check_roundtrip(const GeomDef &g, const EncCfg &cfg, mc::Ctx &ctx,
   const PointCloud &src = g.is_mesh ? *mesh : *cloud;
   EncCfg c = cfg;
   if (check_counts) c.track = true;
-  EncResult enc = encode(g, src, mesh.get(), c);
+  EncResult enc;
+  {
+    // A single request above the harness's allocation cap (mc/alloc_env.h) is an
+    // answer of *this environment*, not a defect of the encoder: count it.
+    const uint64_t refused_before = mc::alloc_env().refused;
+    try {
+      enc = encode(g, src, mesh.get(), c);
+    } catch (const std::bad_alloc &) {
+      if (mc::alloc_env().refused > refused_before) {
+        ctx.count("encoder_request_above_harness_cap");
+        return R;
+      }
+      throw;
+    }
+  }
   ctx.count("encode_calls");
   if (!enc.pred_status.empty()) {
     ctx.count("prediction_scheme_refused_by_api");
